@@ -27,7 +27,7 @@ from . import common
 from .codec import Opaque, coq_str, to_coq
 
 CLOCK_BASE = 1_600_000_000_000_000_000
-CLOCK_STEP = 1_000_000
+CLOCK_STEP = 1          # one nanosecond per tick: a comparison that loses the low digits of st_mtime_ns is visible
 
 
 class UserError(Exception):
